@@ -143,7 +143,23 @@ func TestVerifC11RegProc(t *testing.T) {
 			sub := Subnet{CIDR: Ipnet{n}, Weight: 1, Port: 443, Transport: "Min_Transport", PrefixId: prefix.Min}
 			rp.enforceSubnetOverrides = true
 			rp.prcntMinRegsToOverride, rp.prcntPrefixRegsToOverride = validateOverridePercentages(100, 100)
-			if c.Enforce == "min" {
+			switch c.Enforce {
+			case "min-slash0":
+				_, n0, _ := net.ParseCIDR("0.0.0.0/0")
+				sub.CIDR = Ipnet{n0}
+			case "min-mapped64":
+				_, n0, _ := net.ParseCIDR("::ffff:1.2.3.0/64")
+				sub.CIDR = Ipnet{n0}
+			case "prefix-id10":
+				sub.PrefixId = prefix.PrefixID(10)
+			case "prefix-idrand":
+				sub.PrefixId = prefix.Rand
+			case "prefix-idmax":
+				sub.PrefixId = prefix.PrefixID(2147483647)
+			case "prefix-id-2":
+				sub.PrefixId = prefix.PrefixID(-2)
+			}
+			if strings.HasPrefix(c.Enforce, "min") {
 				rp.minOverrideSubnets = []Subnet{sub}
 				rp.minOverrideSubnetsCumulativeWeights = processOverrideSubnetsWeights(rp.minOverrideSubnets)
 			} else {
